@@ -337,6 +337,7 @@ func exploreScenario(c *Ctx, sc *scenario, levelB bool, maxPreempt, maxPoolDev i
 				}
 			}
 			outcomes[strings.Join(x.digests, "|")] = true
+			c.Outcome(fnvStr(fnvStr(0, sc.name), fmt.Sprint(choicesOf(x.points))))
 			if bad != "" {
 				// determinism: the same schedule must fail the same way 5 times
 				same := 0
